@@ -3,7 +3,8 @@
 One case = one generated problem (with at most one quality metric) + a list of plans:
 
   (validate <problem> (fn (ref (val*) val)*) (plans (plan step*)*) [(temporal-metric makespan|temporal-oversub)])
-  step ::= (do action (obj*)) | (foreign name)
+  step ::= (do action (arg*)) | (foreign name)
+  arg  ::= the atom that spells the actual parameter: object name | true/false | integer | n or n/d (upp.enc_arg)
 
 impl()   : the REAL SequentialPlanValidator on every plan -> status / failure reason / class of the log message /
            index of the inapplicable action / metric value.
@@ -25,17 +26,26 @@ import upx
 
 ID = "C03"
 GEN = []
+EXTRA_PROPS = ["UPVerif.Props.C03Params"]
 CORR_NAME = "validate-status-reason-step-metric"
 RULE = ("one case = one generated problem (upp.ProblemGen grammar as in C01: Boolean/int/real/object fluents with parameters, "
         "types T>S,U, quantified/disjunctive conditions, conditional/forall assign/increase/decrease effects, bounded types, "
-        "state invariants, ~5% undefined fluents, interpreted functions in ~20%) with a metric drawn in turn from {none, action "
-        "costs (constant, fluent-dependent incl. fluents the action itself writes, parameter-dependent, real-valued; with/without default; ~8% with an action left "
+        "state invariants, ~5% undefined fluents, interpreted functions in ~20%; in 2 of 3 action-cost problems and 1 of 3 of "
+        "the others most actions also get 1-2 Boolean / bounded-integer / unbounded-integer / real parameters, placed anywhere "
+        "in the parameter list and used in preconditions, effect values, effect conditions) with a metric drawn in turn from {none, action "
+        "costs (constant, fluent-dependent incl. fluents the action itself writes, parameter-dependent through a fluent, FLUENT-FREE functions of integer / real parameters (k, 2*k, k*k, k/2, 10-k, k+q, k*q), parameters mixed with fluents, real-valued; with/without default; ~8% with an action left "
         "without cost), plan length, minimize/maximize a numeric expression on the final state, oversubscription (1-3 weighted "
         "goals), MinimizeMakespan, TemporalOversubscription (the last two cannot be written in the problem wire format and travel as a flag)}; in ~75% of the problems the goals are re-drawn so that a state reached by a random walk of the real simulator "
         "satisfies them. Plans per problem: the empty plan, every single ground instance, every sequence of length 2 (quick; "
         "sampled above 40) / also length 3 (thorough; sampled above 150), random walks of length 3-6 along applicable actions "
         "(mostly executable) with and without one step replaced by a random instance, and a plan containing an action that is "
-        "not of the problem. Compared per plan: status, FailedValidationReason, class of the log message, 1-based index of "
+        "not of the problem. Problems with Boolean / numeric parameters: instances = the grounder's enumeration for Boolean and "
+        "bounded-integer parameters plus up to 4 in-bounds values (both signs, integral and fractional) of unbounded-integer / "
+        "real ones; singles and pairs are sampled (10 + 10 quick), and per such action 5 (quick) / 16 sequences of 2-4 instances "
+        "of THAT action with different arguments (30% with a step of another action in between), 4 / 20 walks along applicable "
+        "instances biased towards repeating the last action with other arguments, and — in 3 of 4 such problems — the goals are "
+        "drawn from the end of a walk that does repeat an action with other Boolean / numeric arguments (that walk is one of the "
+        "plans), 30% have no goal at all (every executable plan is VALID). Compared per plan: status, FailedValidationReason, class of the log message, 1-based index of "
         "inapplicable_action, metric value (exact rational). Non-trivial = the case contains a VALID plan of length >= 1 and an "
         "INVALID one, or a metric value evaluated on a non-empty plan.")
 ASSUMPTIONS = [
@@ -50,7 +60,13 @@ ASSUMPTIONS = [
     "default: UPUsageError; a cost / final-state expression / oversubscription goal reading a fluent without value) the validator "
     "answers INVALID; the property does not decide these cases (DESIGN 5 C03): they are generated rarely, model and code must "
     "still agree on them, the oracle only demands 'no exception, INVALID carries a reason' there",
-    "action, fluent and quantifier parameters are user-typed (objects); Boolean / integer / real action parameters are not generated",
+    "fluent and quantifier parameters are user-typed (objects); ACTION parameters are user-typed, Boolean, bounded / unbounded "
+    "integer or real (all four parameter features of the validator's supported kind). Values of unbounded-integer / real "
+    "parameters are sampled (up to 4 per parameter: 0, 2, -1, 5 / 1/2, 2, 0, 3/2 clipped to the bounds); a real parameter "
+    "receives a Python int when the value is integral and a Fraction otherwise (the wire format can also spell Real(n/1), "
+    "the generator does not produce it); action costs may be negative (the library accepts them)",
+    "the typed reading of actual parameters lives in C03's own model (Core/SimTyped.lean); the shared simulator model "
+    "Core/Sim.lean (C01, C02 and the compiler properties lifted to all instances) still instantiates actions with objects only",
     "plans are built from ActionInstances the library accepts (ActionInstance itself rejects ill-typed actual parameters with "
     "UPTypeError before any validation); 'wrong parameters' therefore means instances that are well-typed but inapplicable, "
     "ungroundable, or of an action that is not in the problem",
@@ -62,6 +78,10 @@ MODELLED = [
     "get_unsatisfied_conditions -> apply_unsafe -> evaluate_quality_metric, the four except clauses, goal check, final-state "
     "metrics, result construction), evaluate_quality_metric, evaluate_quality_metric_in_final_state, MinimizeActionCosts."
     "get_action_cost; on top of the simulator model of C01/C02 (Core/Sim.lean, Core/Eval.lean)",
+    "an action instance is the action plus the atoms spelling its actual parameters; Sim.argExpr / paramSubstT / groundT "
+    "(Core/SimTyped.lean, Core/ArgLit.lean) read an atom according to the formal parameter's type and ground the instance with "
+    "the body of Sim.ground (proved equal to Sim.paramSubst / Sim.ground / C01's Spec.apply on user-typed actions: "
+    "C03_user_typed_parameters_unchanged); the harness twin is upp.enc_arg / upp.dec_arg (trusted, 20 lines)",
     "the simplifier is a parameter of the theorems; the driver instantiates it with property C11's model",
     "not modelled: PlanValidatorMixin.validate's ProblemKind / PlanKind checks, log message texts beyond their class, the trace "
     "and calculated_interpreted_functions fields, simulated effects, user callables, Python dict/set/Fraction",
@@ -124,15 +144,32 @@ def gen_metric(rng, g, ps, kind):
                     ["times", ["i", "2"], ["fl", FL["x"]]],
                     ["plus", ["fl", FL["z"]], ["fl", FL["xb"]]],
                     ["minus", ["i", "10"], ["fl", FL["zb"]]]]
-            tparams = [p for p in a[2] if p[1][1] in ("T", "S")]
+            tparams = [p for p in a[2] if isinstance(p[1], list) and p[1][0] == "user" and p[1][1] in ("T", "S")]
             if tparams:
                 p = rng.choice(tparams)
                 par = ["p", p[0], p[1]]
                 opts += [["fl", FL["xq"], par]] * 3 + [["plus", ["fl", FL["xq"], par], ["fl", FL["xb"]]]] * 2
-                sparams = [p for p in a[2] if p[1][1] == "S"]
+                sparams = [p for p in tparams if p[1][1] == "S"]
                 if sparams:
                     q = rng.choice(sparams)
                     opts += [["fl", FL["xq"], ["fl", FL["own"], ["p", q[0], q[1]]]]] * 2
+            # costs over the action's own integer / real parameters: fluent-free ones (a function of the ACTUAL parameters
+            # of the step only: the same action costs differently with other arguments), mixed with fluents, two parameters
+            nparams = [p for p in a[2] if isinstance(p[1], list) and p[1][0] in ("int", "real")]
+            numcost = bool(nparams) and rng.random() < 0.8
+            if numcost:
+                p = rng.choice(nparams)
+                par = ["p", p[0], p[1]]
+                opts = [par, par, ["times", ["i", "2"], par], ["plus", par, ["i", "1"]], ["minus", ["i", "10"], par],
+                        ["times", par, par], ["div", par, ["i", "2"]], ["plus", ["times", ["i", "3"], par], ["r", "1/2"]],
+                        ["plus", par, ["fl", FL["xb"]]], ["times", par, ["fl", FL["x"]]], ["minus", ["fl", FL["z"]], par]]
+                if len(nparams) > 1:
+                    q = [x for x in nparams if x is not p][0]
+                    qar = ["p", q[0], q[1]]
+                    opts += [["plus", par, qar], ["times", par, qar], ["minus", par, qar]] * 2
+                if tparams:
+                    t = rng.choice(tparams)
+                    opts += [["plus", par, ["fl", FL["xq"], ["p", t[0], t[1]]]]] * 2
             # a cost that reads a numeric fluent the action itself writes: its value differs between the pre-state
             # and the successor, so "summed over PRE-states" is observable
             own = []
@@ -140,7 +177,7 @@ def gen_metric(rng, g, ps, kind):
                 ty = e[2][1][1]
                 if isinstance(ty, list) and ty[0] in ("int", "real") and not e[5]:
                     own += [["plus", e[2], ["i", "1"]], e[2], ["times", ["i", "2"], e[2]]]
-            costs.append([a[1], rng.choice(own) if own and rng.random() < 0.5 else rng.choice(opts)])
+            costs.append([a[1], rng.choice(own) if own and not numcost and rng.random() < 0.5 else rng.choice(opts)])
         # without default an action left out has NO cost (UPUsageError at validation): kept rare
         if leave_out:
             dflt = "_" if rng.random() < 0.25 else rng.choice([["i", "1"], ["i", "0"], ["r", "3/2"], ["fl", FL["xb"]]])
@@ -179,7 +216,72 @@ def _norm_metric(ms, flags):
     return out
 
 
+def has_num_params(ps):
+    return any(p[1] == "bool" or p[1][0] != "user" for a in upp.get(ps, "actions") for p in a[2])
+
+
+def _is_num_action(real, an):
+    return any(pt == "bool" or pt[0] != "user" for pt in real.ptypes.get(an, []))
+
+
+def _pick_applicable(rng, real, sim, s, last=None, bias=0.7):
+    """an applicable instance among real.instances (which, unlike get_applicable_actions, also hold sampled values of
+    parameters no grounder enumerates), or None.  Biased towards actions with Boolean / numeric parameters and towards
+    OTHER arguments than the previous step's when the action is repeated."""
+    insts = list(real.instances)
+    rng.shuffle(insts)
+    if rng.random() < bias:
+        insts.sort(key=lambda x: 0 if _is_num_action(real, x[0]) else 1)
+        if last is not None and rng.random() < bias:
+            insts.sort(key=lambda x: 0 if (x[0] == last[0] and x[1] != last[1]) else 1)
+    for an, args in insts[:25]:
+        try:
+            if sim.is_applicable(s, real.P.action(an), real.params(args, an)):
+                return an, list(args)
+        except Exception:
+            if simlib.REPLACE_DIRTY_SIM and real.dirty(sim):
+                return None
+    return None
+
+
+def _repeats_with_other_args(real, steps):
+    """does one action with Boolean / numeric parameters occur twice with different values of them?"""
+    seen = {}
+    for st in steps:
+        if st[0] != "do":
+            continue
+        v = tuple(x for x, pt in zip(st[2], real.ptypes.get(st[1], [])) if pt == "bool" or pt[0] != "user")
+        if v:
+            seen.setdefault(st[1], set()).add(v)
+    return any(len(v) > 1 for v in seen.values())
+
+
+def _num_walk(rng, real, n, bias=0.7):
+    """(steps, final state) of a walk of at most n steps along applicable instances"""
+    sim = real.fresh()
+    try:
+        s = sim.get_initial_state()
+    except Exception:
+        return [], None
+    walk, last = [], None
+    for _ in range(n):
+        nxt = _pick_applicable(rng, real, sim, s, last, bias)
+        if nxt is None:
+            break
+        try:
+            s2 = sim.apply(s, real.P.action(nxt[0]), real.params(nxt[1], nxt[0]))
+        except Exception:
+            break
+        if s2 is None:
+            break
+        walk.append(["do", nxt[0], nxt[1]])
+        s, last = s2, nxt
+    return walk, s
+
+
 def _random_walk_state(rng, real, n):
+    if has_num_params(real.ps):
+        return _num_walk(rng, real, n)[1]
     sim = real.sim
     try:
         s = sim.get_initial_state()
@@ -202,13 +304,25 @@ def _random_walk_state(rng, real, n):
     return s
 
 
-def _redraw_goals(rng, g, ps, fns):
-    """goals that some state reached by a random walk satisfies (so that VALID plans of length >= 1 exist)"""
+def _redraw_goals(rng, g, ps, fns, seed_walks=None, require_repeat=False, no_goals=False):
+    """goals that some state reached by a random walk satisfies (so that VALID plans of length >= 1 exist); for problems
+    with Boolean / numeric action parameters the walk itself is handed back in `seed_walks` (it becomes one of the plans).
+    require_repeat: None is returned unless that walk uses one action twice with different Boolean / numeric arguments.
+    no_goals: the goal list becomes empty (every executable plan is valid: every metric value is observed)."""
     try:
-        real = simlib.make_real(ps, fns)
+        real = simlib.make_real(ps, fns, "sampled")
     except simlib.Skip:
-        return ps
-    s = _random_walk_state(rng, real, rng.choice([1, 2, 2, 3]))
+        return None if require_repeat else ps
+    if has_num_params(ps):
+        walk, s = _num_walk(rng, real, rng.choice([2, 3, 3, 4]), 0.9 if require_repeat else 0.7)
+        if require_repeat and not _repeats_with_other_args(real, walk):
+            return None
+        if seed_walks is not None and walk:
+            seed_walks.append(walk)
+        if no_goals:
+            return _set_sec(ps, "goals", [])
+    else:
+        s = _random_walk_state(rng, real, rng.choice([1, 2, 2, 3]))
     if s is None:
         return ps
     smap = real.state_map(s)
@@ -239,9 +353,11 @@ def _redraw_goals(rng, g, ps, fns):
     return _set_sec(ps, "goals", keep)
 
 
-def gen_problem(rng, kind):
-    """canonical problem s-expression with a metric of the requested kind (or None if kept out)"""
-    g = upp.ProblemGen(rng, undefined=(rng.random() < 0.6), invariants=True, metrics=False)
+def gen_problem(rng, kind, numeric=False):
+    """canonical problem s-expression with a metric of the requested kind (or None if kept out); `numeric`: most
+    actions also get Boolean / integer / real parameters"""
+    g = upp.ProblemGen(rng, undefined=(rng.random() < (0.3 if numeric else 0.6)), invariants=True, metrics=False,
+                       num_params=0.85 if numeric else 0.0)
     ps = g.problem()
     if rng.random() < 0.2:
         ps = simlib.inject_ifuns(rng, ps)
@@ -259,7 +375,13 @@ def gen_problem(rng, kind):
         ps = upp.enc_problem(P)
     except Exception:
         return None
-    if rng.random() < 0.7 or not upp.get(ps, "goals"):
+    seed_walks = []
+    if numeric:
+        # in 3 of 4 such problems some executable walk repeats an action with other Boolean / numeric arguments
+        ps = _redraw_goals(rng, g, ps, fns, seed_walks, require_repeat=(rng.random() < 0.75), no_goals=(rng.random() < 0.3))
+        if ps is None:
+            return None
+    elif rng.random() < 0.7 or not upp.get(ps, "goals"):
         ps = _redraw_goals(rng, g, ps, fns)
     ms = _norm_metric(gen_metric(rng, g, ps, kind), flags)
     ps = _set_sec(ps, "metrics", ms)
@@ -271,14 +393,24 @@ def gen_problem(rng, kind):
     flags2 = {}
     if simlib.normalise_problem(canon, flags2) != canon or (flags2.get("exists-eq") and not simlib.SIMPLIFIER_REPAIRED):
         return None
-    return canon, fns
+    return canon, fns, seed_walks
 
 
-def gen_plans(rng, real, tier):
+def gen_plans(rng, real, tier, seed_walks=()):
     insts = [["do", an, list(args)] for an, args in real.instances]
+    numeric = has_num_params(real.ps)
     plans = [[]]
-    plans += [[i] for i in insts]
     cap2, cap3 = (40, 0) if tier == "quick" else (150, 150)
+    if numeric:
+        # the instance set is large (values x objects): singles and pairs are sampled, the budget goes to repetitions
+        cap1, cap2, cap3 = (10, 10, 0) if tier == "quick" else (40, 40, 40)
+        plans += [[i] for i in (insts if len(insts) <= cap1 else rng.sample(insts, cap1))]
+        for w in seed_walks:
+            plans.append(list(w))
+            if len(w) > 1:
+                plans.append(list(w[:-1]))
+    else:
+        plans += [[i] for i in insts]
     pairs = [[a, b] for a in insts for b in insts]
     if len(pairs) > cap2:
         pairs = rng.sample(pairs, cap2)
@@ -289,10 +421,39 @@ def gen_plans(rng, real, tier):
             plans += [[a, b, c] for a in insts for b in insts for c in insts]
         else:
             plans += [[rng.choice(insts) for _ in range(3)] for _ in range(cap3)]
+    # the same action several times with DIFFERENT Boolean / numeric arguments (alone, and around a step of another action)
+    if numeric:
+        by_act = {}
+        for i in insts:
+            if _is_num_action(real, i[1]):
+                by_act.setdefault(i[1], []).append(i)
+        rep = []
+        for an, group in by_act.items():
+            if len(group) < 2:
+                continue
+            for _ in range(5 if tier == "quick" else 16):
+                k = rng.choice([2, 2, 3, 3, 4])
+                seq = [rng.choice(group) for _ in range(k)]
+                if all(x == seq[0] for x in seq):
+                    seq[-1] = rng.choice([g_ for g_ in group if g_ != seq[0]])
+                if rng.random() < 0.3:
+                    seq.insert(rng.randint(0, len(seq)), rng.choice(insts))
+                rep.append(seq)
+        plans += rep
     # random walks along applicable actions (executable prefixes), some with one step swapped
     nwalk = 6 if tier == "quick" else 20
     sim = real.sim
-    for _ in range(nwalk):
+    for _ in range((4 if tier == "quick" else 20) if numeric else 0):
+        walk, _s = _num_walk(rng, real, rng.choice([3, 4, 5, 6]))
+        if walk:
+            plans.append(list(walk))
+            if insts and rng.random() < 0.6:
+                w2 = list(walk)
+                w2[rng.randrange(len(w2))] = rng.choice(insts)
+                plans.append(w2)
+            if insts and rng.random() < 0.3:
+                plans.append(list(walk) + [rng.choice(insts)])
+    for _ in range(0 if numeric else nwalk):
         try:
             s = sim.get_initial_state()
         except Exception:
@@ -345,24 +506,29 @@ def temporal_of(pl):
     return pl[4][1] if len(pl) > 4 else None
 
 
-def make_case(rng, tier, kind):
+def make_case(rng, tier, kind, numeric=False):
     for _ in range(200):
-        r = gen_problem(rng, "none" if kind in TEMPORAL else kind)
+        r = gen_problem(rng, "none" if kind in TEMPORAL else kind, numeric)
         if r is None:
             continue
-        ps, fns = r
+        ps, fns, seed_walks = r
         try:
-            real = simlib.make_real(ps, fns)
+            real = simlib.make_real(ps, fns, "sampled")
         except simlib.Skip:
             continue
-        return payload(ps, fns, gen_plans(rng, real, tier), kind if kind in TEMPORAL else None)
+        if numeric and not has_num_params(ps):
+            continue
+        return payload(ps, fns, gen_plans(rng, real, tier, seed_walks), kind if kind in TEMPORAL else None)
     raise RuntimeError("generator kept everything out")
 
 
 def cases(rng, tier):
     n = 60 if tier == "quick" else 300
     for i in range(n):
-        yield make_case(rng, tier, METRIC_KINDS[i % len(METRIC_KINDS)])
+        kind = METRIC_KINDS[i % len(METRIC_KINDS)]
+        # Boolean / integer / real action parameters: in 2 of 3 action-cost problems, in 1 of 3 of the others
+        numeric = rng.random() < (0.67 if kind == "costs" else 0.34)
+        yield make_case(rng, tier, kind, numeric)
 
 
 # ------------------------------------------------------------------------------------------------
@@ -371,7 +537,7 @@ def cases(rng, tier):
 
 def _build(pl):
     ps, fns = pl[1], pl[2][1:]
-    real = simlib.Real(ps, fns)
+    real = simlib.Real(ps, fns, "sampled")
     t = temporal_of(pl)
     if t is not None:
         # a metric the wire format does not carry: inside supported_kind(), no value on a sequential plan
@@ -394,7 +560,7 @@ def _real_plan(real, steps, foreign):
     for st in steps:
         if st[0] == "do":
             act = real.P.action(st[1])
-            ais.append(ActionInstance(act, tuple(real.ctx.em.ObjectExp(o) for o in real.params(st[2]))))
+            ais.append(ActionInstance(act, real.actuals(st[2], st[1])))
         elif st[0] == "foreign":
             if st[1] not in foreign:
                 foreign[st[1]] = InstantaneousAction(st[1], _env=real.ctx.env)
@@ -462,15 +628,14 @@ def _validate_one(real, steps):
 
 
 def impl(pl):
-    with watchdog():
-        real = _build(pl)
-        out = []
-        for plan in pl[3][1:]:
-            a, _ = _validate_one(real, plan[1:])
-            if isinstance(a, list) and a[:2] == ["raise", "other"]:
-                a = ["raise", "other"]
-            out.append(a)
-        return out
+    """the answers of the real validator; they are produced once per case, inside `analyse` (which goes on to judge
+    them against the property), and shared through the cache — every plan is validated exactly once per case"""
+    out = []
+    for a in _analysis(pl)[2]:
+        if isinstance(a, list) and a[:2] == ["raise", "other"]:
+            a = ["raise", "other"]
+        out.append(a)
+    return out
 
 
 # ------------------------------------------------------------------------------------------------
@@ -492,7 +657,8 @@ def _metric_value(ps, fns, metric, steps, pre_maps, final_map):
             if e is None:
                 return ("undefined", "no-cost")
             I = simlib._interp(ps, smap, fns)
-            I["par"] = {p[0]: ("o", o) for p, o in zip(acts[st[1]][2], st[2])}
+            # the ACTUAL parameters of this step (never those of another occurrence of the action)
+            I["par"] = {p[0]: upp.arg_value(p[1], o) for p, o in zip(acts[st[1]][2], st[2])}
             v = pyden.den(e, I)
             if v is None or v[0] != "n":
                 return ("undefined", "cost-reads-undefined")
@@ -526,7 +692,7 @@ def _reference(real, ps, fns, steps):
         if st[0] == "foreign":
             return i, False, pre_maps, None
         pre_maps.append(real.state_map(s))
-        s2 = sim.apply(s, real.P.action(st[1]), real.params(st[2]))
+        s2 = sim.apply(s, real.P.action(st[1]), real.params(st[2], st[1]))
         if simlib.REPLACE_DIRTY_SIM and real.dirty(sim):
             sim = real.fresh()
         # "executable under the semantics of C01" means the DOCUMENTED semantics, not whatever the simulator does:
@@ -555,15 +721,16 @@ class SemanticsMismatch(Exception):
 
 
 def analyse(pl):
-    """(violation or None, per-plan tags)"""
+    """(violation or None, per-plan tags, per-plan answers of the real validator)"""
     ps, fns = pl[1], pl[2][1:]
     real = _build(pl)
     metrics = upp.get(ps, "metrics")
-    viol, tags = None, []
+    viol, tags, answers = None, [], []
     for plan in pl[3][1:]:
         steps = plan[1:]
         t = set()
         a, res = _validate_one(real, steps)
+        answers.append(a)
         t.add("len:%s" % (len(steps) if len(steps) < 4 else "4+"))
         if a == "crash" or (isinstance(a, list) and a and a[0] == "raise"):
             viol = viol or f"validate raised ({sexp.dumps(a)}) on plan {sexp.dumps(plan)}"
@@ -628,7 +795,7 @@ def analyse(pl):
         else:
             viol = viol or f"unexpected status {sexp.dumps(a)}"
         tags.append(t)
-    return viol, tags
+    return viol, tags, answers
 
 
 _cache = {}
@@ -675,6 +842,35 @@ def stats(pl, ans):
             out["some-plan:INVALID/%s%s" % (a[2], "/step>=2" if a[3] not in ("0", "1") else "")] = 1
         else:
             out["some-plan:" + sexp.dumps(a)[:30]] = 1
+    # Boolean / integer / real action parameters
+    if has_num_params(pl[1]):
+        out["numparam:problem"] = 1
+        acts = {a[1]: a for a in upp.get(pl[1], "actions")}
+        free = set()        # actions whose cost mentions a numeric parameter and no fluent
+        if ms and ms[0][0] == "min-action-costs":
+            for an, e in ms[0][1]:
+                names = upx.free_names(e)
+                if names["p"] and any(isinstance(q[2], list) and q[2][0] in ("int", "real") for q in names["p"]):
+                    out["numparam:cost-over-parameter"] = 1
+                    if not names["fl"] and not names["ifun"]:
+                        free.add(an)
+                        out["numparam:fluent-free-cost-over-parameter"] = 1
+        for a, p in zip(ans if isinstance(ans, list) else [], plans):
+            if not (isinstance(a, list) and a and a[0] == "valid"):
+                continue
+            seen = {}
+            for st in p[1:]:
+                if st[0] != "do":
+                    continue
+                num_args = tuple(x for x, q in zip(st[2], acts[st[1]][2]) if q[1] == "bool" or q[1][0] != "user")
+                if num_args:
+                    out["numparam:some-VALID-plan-uses-one"] = 1
+                seen.setdefault(st[1], set()).add(num_args)
+            for an, vs in seen.items():
+                if len(vs) > 1:
+                    out["numparam:some-VALID-plan-repeats-action-with-other-arguments"] = 1
+                    if an in free and a[1] != "_":
+                        out["numparam:...-and-its-cost-is-a-fluent-free-function-of-them"] = 1
     try:
         for t in _analysis(pl)[1]:
             for x in t:
@@ -702,7 +898,7 @@ def shrink(pl):
         if not keep:
             return None
         try:
-            simlib.make_real(ps2, fns)
+            simlib.make_real(ps2, fns, "sampled")
         except simlib.Skip:
             return None
         return payload(ps2, fns, keep, tm)
@@ -723,14 +919,18 @@ MANIFEST = {
     "level_text": ("Lean 4 theorems (Props/C03.lean) about an executable model of SequentialPlanValidator._validate (Core/Validate.lean, "
                    "on top of C01's simulator model), for every problem, simplifier, interpreted-function table and plan, with no bound "
                    "on the plan length: whenever the validator returns, it answers VALID with value v exactly when the plan is "
-                   "executable from the initial state under the declarative one-step semantics of C01 (Spec.apply), ends in a goal "
+                   "executable from the initial state under the declarative one-step semantics of C01 (Spec.successor of the instance; "
+                   "Spec.applyT, which is C01's Spec.apply on every action with user-typed parameters), ends in a goal "
                    "state, and v is the value the metric defines (Spec/Plan.lean: costs summed over pre-states with the actual "
                    "parameters substituted, plan length, final-state expression, oversubscription gain; one named theorem per metric "
                    "kind); an INVALID answer names the first step without documented successor (or the goals) truthfully; the "
                    "UnboundLocalError path of the unrepaired code is an explicit outcome of the model, shown reachable for the code as "
                    "found and unreachable after the repair; a missing fluent never escapes as an exception; temporal metrics "
                    "(makespan, temporal oversubscription: inside the supported kind, raised NotImplementedError as found) are not "
-                   "evaluated after the repair; the empty plan is covered. The model is tied to /repo on every run by a differential check (status, failure reason, message class, "
+                   "evaluated after the repair; the empty plan is covered. Action parameters may be objects, Booleans, bounded or unbounded "
+                   "integers and reals (Props/C03Params.lean: the spelling of actual parameters is lossless; when one action occurs "
+                   "twice each occurrence is charged the cost expression with its own actual parameters; a fluent-free cost is "
+                   "state-independent but, kernel-checked, not argument-independent). The model is tied to /repo on every run by a differential check (status, failure reason, message class, "
                    "index of the inapplicable action, exact metric value) over all short plans and random longer ones of generated "
                    "problems, plus an oracle that recomputes validity with the real simulator and metric values with an independent "
                    "evaluator."),
